@@ -448,6 +448,10 @@ func (cl *cluster) apply(ev string) {
 		if cl.task.panicked != "" {
 			cl.violate("panic", "panic:task:"+cl.task.kind, "the replica-side task panicked: "+cl.task.panicked)
 		}
+	case "FiemapFail":
+		cl.failFiemap = true
+		cl.nFaults++
+		cl.observe("FiemapFail armed")
 	case "XferFail":
 		// the next snapshot-file transfer of the running rebuild dies half way
 		cl.failXfer = true
